@@ -19,6 +19,7 @@ pub mod discovery;
 pub mod worker;
 pub mod rxo;
 pub mod matched;
+pub mod api;
 
 #[derive(Clone, Debug, Serialize, Deserialize, PartialEq)]
 pub struct Violation {
@@ -73,6 +74,7 @@ pub fn all() -> Vec<ScenarioDef> {
     v.extend(worker::defs());
     v.extend(rxo::defs());
     v.extend(matched::defs());
+    v.extend(api::defs());
     v
 }
 
